@@ -34,6 +34,12 @@ def gen_case(rng, big=False):
         seqs.insert(rng.randint(0, len(seqs) - 1), "")
     style = rng.choice(["s", "rand", "long", "num", "prefix"]) if n <= 150 else rng.choice(["s", "num", "rand"])
     names = gen.names(rng, len(seqs), style)
+    if rng.random() < 0.15:
+        # FASTA headers "identifier description": the whole line is the name; many records share the identifier and differ only in the description
+        ids = ["".join(rng.choice(gen.NAMECHARS[:36] if hasattr(gen, "NAMECHARS") else "abc") for _ in range(rng.randint(2, 8))) for _ in range(rng.choice([1, 1, 2, 3]))]
+        order = list(range(len(seqs)))
+        rng.shuffle(order)
+        names = ["%s %s %d" % (rng.choice(ids), rng.choice(["chain", "isoform", "clone", "x"]), k) for k in order]
     return kind, list(zip(names, seqs))
 
 
@@ -65,7 +71,9 @@ def run_case(ck, paths, idx, big):
             ck.count("inputs_with_gap_characters_in_one_record")
 
     block_fmt = None
-    if gapped_name is None and max(len(n_) for n_, _ in recs) <= 60 and all(s_ for _, s_ in recs) and rng.random() < 0.25:
+    if any(" " in n_ for n_, _ in recs):
+        ck.count("inputs_with_headers_sharing_the_first_word")
+    if gapped_name is None and max(len(n_) for n_, _ in recs) <= 60 and all(s_ for _, s_ in recs) and not any(" " in n_ for n_, _ in recs) and rng.random() < 0.25:
         block_fmt = rng.choice(["msf", "clu"])
         ck.count("inputs_presented_as_%s" % block_fmt)
 
@@ -149,9 +157,9 @@ def run(ck, tier):
     jobs = [(i, False) for i in range(int(nsmall * sc))] + [(100000 + i, True) for i in range(int(nbig * sc))]
     common.pmap(lambda j: run_case(ck, paths, j[0], j[1]), jobs, workers=10)
     ck.rule = ("uniquely named record sets full of sort ties (all sequences of equal length, groups of equal length, duplicates under different names; names "
-               "differing late, numeric names) with 2..99 and 100..400 sequences; reversal, rotation and random permutations (some split over two files); "
+               "differing late, numeric names, 'identifier description' headers sharing the identifier) with 2..99 and 100..400 sequences; reversal, rotation and random permutations (some split over two files); "
                "all admissible types; threads 1/4/16. Oracle: set of columns, a column being the set of (name, residue index). Non-trivial = base alignment contains gaps.")
-    ck.assumptions = ["names pairwise distinct within their first 200 characters, no whitespace"]
+    ck.assumptions = ["names (whole header lines) pairwise distinct within their first 200 characters; headers with blanks only in FASTA presentations"]
 
 
 def replay(ck, doc):
